@@ -223,6 +223,10 @@ func (l *Gpos6_1) encode() []byte {
 			}
 		}
 	}
+	if mark2Count*markClassCount > (65536-6-2)/2 {
+		// the reader rejects such tables
+		panic("too many anchor offsets")
+	}
 	if mark2ArrayOffset > 0xFFFF {
 		panic("mark2 array offset overflow")
 	}
